@@ -50,8 +50,12 @@ def kind_of(c):
         return "bad-base64"
     pl = c.get("payload", {})
     tags = set(pl.values())
-    if tags & {"bad", "junk"}:
+    hollow = {"e0", "ws", "cm"}        # placeholders: flows and top-level quota files must have content, the gateway config may be empty
+    if tags & {"bad", "junk"} or any(v in hollow and "/team/" not in k and (k.startswith("flows/") or k.startswith("quotas/"))
+                                     for k, v in pl.items()):
         return "fails-validation"
+    if pl.get(GW) in ("ws", "cm"):
+        return "fails-gateway-config"
     if "gbad" in tags:
         return "fails-gateway-config"
     if "mbad" in tags:
@@ -80,9 +84,16 @@ def rand_case(rng, thorough, endpoints):
         disk["quotas/q.yaml"] = "q1"
     if rng.random() < 0.3:
         disk["path_params/p.yaml"] = "p1"
+    for sf, tag in (("quotas/a.yaml", "q1"), ("path_params/a.yaml", "p1")):     # the same base name in several directories
+        if rng.random() < 0.3:
+            disk[sf] = tag
+    if rng.random() < 0.25:                            # legal placeholders: empty gateway config / path-parameter file
+        disk[GW] = "e0"
+    if rng.random() < 0.15:
+        disk["path_params/p.yaml"] = "e0"
     for nf, tag in NESTED_OLD.items():                # files in sub-directories (path parameters are loaded recursively)
         if rng.random() < 0.25:
-            disk[nf] = tag
+            disk[nf] = tag if "path_params" in nf or rng.random() < 0.7 else rng.choice(["e0", "ws", "cm"])
     ep = rng.choice(endpoints)
     c = {"endpoint": ep, "method": "PUT", "disk": disk, "payload": {}, "badb64": []}
     x = rng.random()
@@ -102,6 +113,13 @@ def rand_case(rng, thorough, endpoints):
         pl["quotas/q.yaml"] = "q2"
     if rng.random() < 0.2:
         pl["path_params/p.yaml"] = "p2"
+    for sf, tag in (("quotas/a.yaml", "q2"), ("path_params/a.yaml", "p2")):
+        if rng.random() < 0.2:
+            pl[sf] = tag
+    if rng.random() < 0.12:                            # placeholders in payloads, for every kind of file
+        k = rng.choice([GW, GW, "quotas/q.yaml", "path_params/p.yaml", "flows/b.yaml", "flows/team/n.yaml", "quotas/team/nq.yaml"])
+        # (a single-file kind cannot be pushed empty: an empty string in the payload means "not part of this update")
+        pl[k] = "e0" if k == "path_params/p.yaml" else rng.choice(["ws", "cm"]) if k == GW else rng.choice(["e0", "e0", "ws", "cm"])
     for nf, tag in NESTED_NEW.items():
         if rng.random() < 0.2:
             pl[nf] = tag
@@ -140,7 +158,7 @@ def rand_history(rng, thorough, endpoints):
                 if not any(k.startswith("flows/") for k in c["payload"]):
                     c["payload"][rng.choice(FLOWS)] = "v2"
             invalid = bool(c.get("raw") or c.get("badb64") or c.get("method", "PUT") != "PUT" or
-                           set(c["payload"].values()) & {"bad", "junk", "gbad", "mbad"})
+                           set(c["payload"].values()) & {"bad", "junk", "gbad", "mbad", "e0", "ws", "cm"})
             if last or not (invalid and c.get("fault")):
                 break
         if j > 0:
@@ -401,6 +419,12 @@ def run(ctx):
     os.environ.setdefault("JAVA_TOOL_OPTIONS", "-Xmx2g")      # many TLC processes run side by side: bound each JVM
     binary = ctx.build_harness("c08")
     sd = ctx.spec_dir(SPEC)
+    import threading
+    jvms, tlc0 = threading.BoundedSemaphore(4), ctx.tlc        # at most four TLC processes at a time
+    def tlc_capped(*a, **kw):
+        with jvms:
+            return tlc0(*a, **kw)
+    ctx.tlc = tlc_capped
     ctx.cov["rule"] = ("case = (old tree, payload, verb, endpoint, one injected failure); cases = terminal states of the bounded "
                        "TLA+ model (every payload kind x every failure step) + seeded random cases over a wider universe; "
                        "+ histories of 2-4 updates on one gateway (TLC walks / enumeration of the two-update model, seeded random); "
@@ -445,7 +469,7 @@ def run(ctx):
                            extra=["-seed", str(ctx.seed)], label="history generation (walks)")
         return ctx.tlc(sd, "GenC08", arg, workers=(4 if T else 2), timeout=900, heap="3g", label="case generation")
     flags = ["RestoreWrongDirection", "PublishBeforeInit", "ContinueAfter405", "ApplyNoBackup", "MetricsToDefaultPath",
-             "NoReloadAfterRestore", "StaleBackup", "BackupNotRecursive"]
+             "NoReloadAfterRestore", "StaleBackup", "BackupNotRecursive", "CleanSkips"]
     nr, nrh = (100, 50) if not T else (3000, 1200)
     rc = [rand_case(ctx.rng, T, endpoints) for _ in range(nr)]
     rh = [rand_history(ctx.rng, T, endpoints) for _ in range(nrh)]
@@ -454,7 +478,7 @@ def run(ctx):
            [("nv", f) for f in flags] + \
            [("rand", rbatches), ("gen", "GenC08.cfg" if not T else "GenC08_full.cfg"),
             ("sim", ("GenC08_hist.cfg", 120) if not T else ("GenC08_hist4.cfg", 500)),
-            ("mc", "MC_nested.cfg" if not T else "MC_nested_full.cfg"), ("gen", "GenC08_nested.cfg"),
+            ("mc", "MC_nested.cfg" if not T else "MC_nested_full.cfg"), ("gen", "GenC08_nested.cfg"), ("gen", "GenC08_names.cfg"),
             ("cmc", "MC_Conc.cfg" if not T else "MC_Conc3.cfg"), ("cnv", "MC_Conc_nv.cfg"),
             ("csim", ("GenConc.cfg", 40 if not T else 400)), ("csim", ("GenConc_dev.cfg", 300 if not T else 3000))]
     if T:
@@ -488,7 +512,8 @@ def run(ctx):
     ctx.cov["exhaustive"] = bool(T)       # thorough: every case of the two-flow instances (GenC08_full.cfg, GenC08_mx.cfg) is replayed
     # files in sub-directories (TLC-enumerated instance with a nested path-parameter and a nested flow file); thorough: plus every
     # case of the instance without a user metrics file, plus a seeded sample of the three-flow instance
-    for cfgname, take in [("GenC08_nested.cfg", 80 if not T else 3000)] + ([("GenC08_mx.cfg", None), ("GenC08_thorough.cfg", 4000)] if T else []):
+    for cfgname, take in [("GenC08_nested.cfg", 60 if not T else 3000), ("GenC08_names.cfg", 80 if not T else 3000)] + \
+                         ([("GenC08_mx.cfg", None), ("GenC08_thorough.cfg", 4000)] if T else []):
         cs = {}
         for o in tlc_vh_lines(byjob[("gen", cfgname)].out):
             c = from_model(o)
@@ -498,6 +523,8 @@ def run(ctx):
         extra = [cs[k] for k in sorted(cs)]
         if cfgname == "GenC08_nested.cfg":        # only the cases that touch a nested file
             extra = [c for c in extra if any("/team/" in k for k in list(c["disk"]) + list(c["payload"]))]
+        if cfgname == "GenC08_names.cfg":         # the same base name in two directories / an empty gateway config in the old tree
+            extra = [c for c in extra if "path_params/a.yaml" in list(c["disk"]) + list(c["payload"]) or c["disk"].get(GW) == "e0"]
         rng.shuffle(extra)
         sel = sel + (extra if take is None else extra[:take])
         ctx.log("%s: %d cases generated, %d replayed" % (cfgname, len(cs), len(extra) if take is None else min(take, len(extra))))
